@@ -71,6 +71,19 @@ def table(ctx) -> dict:
                 row['norm'] = {'k': 'nan'}
             row['up'] = _opt(lambda: fmt.next_up(v))
             row['down'] = _opt(lambda: fmt.next_down(v))
+            # the same value in another spelling (significand shifted by two digits): still the same pattern, the same normal form
+            v2 = Float(s=v.s, c=v.c << 2, exp=v.exp - 2)
+            try:
+                row['b3'] = int(fmt.encode(v2))
+            except Exception:  # noqa: BLE001
+                row['b3'] = -1
+            try:
+                row['norm2'] = num_json(fmt.normalize(v2))
+            except Exception:  # noqa: BLE001
+                row['norm2'] = {'k': 'nan'}
+        else:
+            row['b3'] = row['b2']
+            row['norm2'] = row['val']
         rows.append(row)
     # probes: a grid twice as fine as the format, past its largest value
     probes = []
@@ -91,7 +104,15 @@ def table(ctx) -> dict:
                 probes.append({'x': num_json(x), 'rep': bool(fmt.representable_in(x))})
             except OutOfDomain:
                 pass
-    return {'op': 'table', 'ctx': ctx_json(ctx), 'rows': rows, 'probes': probes,
+    # a NaN that comes from rounding (not from decoding a pattern) encodes to a pattern that decodes to NaN
+    nanrt = []
+    try:
+        nv = ctx.round(float('nan'))
+        if nv.isnan:
+            nanrt = [bool(fmt.decode(int(fmt.encode(nv))).isnan)]
+    except Exception:      # noqa: BLE001   (the format has no NaN)
+        nanrt = []
+    return {'op': 'table', 'ctx': ctx_json(ctx), 'rows': rows, 'probes': probes, 'nanrt': nanrt,
             'largest': _opt(fmt.largest), 'smallest': _opt(fmt.smallest)}
 
 
